@@ -58,3 +58,31 @@ Definition check_history (x : world * list oopres) : bool :=
   let m := run_history_results w in
   Nat.eqb (List.length m) (List.length l) &&
   forallb (fun mo => match snd mo with OOp r => opres_eqb (fst mo) r | OOpOther _ _ => false end) (combine m l).
+
+(* probes after an enumerated history: POST /<path> {method: info} (JSON) with the given Authorization header *)
+Definition check_probe (x : world * list (list string * option string * obs)) : bool :=
+  let '(w, l) := x in
+  let st := state_of w in
+  forallb (fun p => let '(path, auth, o) := p in matches (handle hverify GT st (mk_req POST path auth CtJson (BOk "info"))) o) l.
+Definition run_probe (w : world) (l : list (list string * option string)) : list response :=
+  let st := state_of w in map (fun p => handle hverify GT st (mk_req POST (fst p) (snd p) CtJson (BOk "info"))) l.
+
+(* one enumerated history, compactly: the operations (without the final forced restart), the observed result of every
+   operation including that restart, the probe grid (database paths x Authorization headers, row-major), and the
+   observed classes before and after the restart *)
+Definition enum_case : Type := world * list oopres * list string * list (option string) * list obs * list obs.
+Definition grid (dbs : list string) (auths : list (option string)) : list (list string * option string) :=
+  flat_map (fun d => map (fun a => ([d], a)) auths) dbs.
+Definition probe_ok (st : sstate string) (g : list (list string * option string)) (os : list obs) : bool :=
+  Nat.eqb (List.length g) (List.length os) &&
+  forallb (fun po => matches (handle hverify GT st (mk_req POST (fst (fst po)) (snd (fst po)) CtJson (BOk "info"))) (snd po)) (combine g os).
+Definition check_enum (x : enum_case) : bool :=
+  let '(w, res, dbs, auths, before, after) := x in
+  let '(admin, primary, max, h) := w in
+  let w' : world := (admin, primary, max, (h ++ [ORestart])%list) in
+  check_history (w', res) && probe_ok (state_of w) (grid dbs auths) before && probe_ok (state_of w') (grid dbs auths) after.
+Definition run_enum (w : world) (dbs : list string) (auths : list (option string)) : list opres * list response * list response :=
+  let '(admin, primary, max, h) := w in
+  let w' : world := (admin, primary, max, (h ++ [ORestart])%list) in
+  let f st := map (fun p => handle hverify GT st (mk_req POST (fst p) (snd p) CtJson (BOk "info"))) (grid dbs auths) in
+  (run_history_results w', f (state_of w), f (state_of w')).
